@@ -26,22 +26,7 @@ VARIABLES cfg, inp, n, step
 vars == <<cfg, inp, n>>
 
 ----------------------------------------------------------------------------
-(* HTML *)
-E_amp  == <<38,97,109,112,59>>        \* "&amp;"
-E_lt   == <<38,108,116,59>>           \* "&lt;"
-E_gt   == <<38,103,116,59>>           \* "&gt;"
-E_quot == <<38,113,117,111,116,59>>   \* "&quot;"
-E_apos == <<38,35,120,50,55,59>>      \* "&#x27;"
-Entities == <<E_amp, E_lt, E_gt, E_quot, E_apos>>
-EntChar  == <<38, 60, 62, 34, 39>>
-HtmlEscChar(c) == CASE c = 38 -> E_amp [] c = 60 -> E_lt [] c = 62 -> E_gt
-                    [] c = 34 -> E_quot [] c = 39 -> E_apos [] OTHER -> <<c>>
-HtmlEscape(t) == CatMap(HtmlEscChar, t)
-
-(* no raw markup character, and every '&' starts one of the five entities *)
-HtmlSafe(s) == \A i \in 1..Len(s) :
-                  /\ s[i] \notin {60, 62, 34, 39}
-                  /\ s[i] = 38 => \E e \in 1..5 : HasAt(s, i, Entities[e])
+(* HTML: HtmlEscape, Entities, HtmlSafe are defined in TextBase *)
 
 (* inverse restricted to the five entities (the real xhtml_unescape is html.unescape) *)
 HtmlUnescape5(s) ==
